@@ -4,3 +4,4 @@ pub mod gen;
 pub mod ctl;
 pub mod codec;
 pub mod ops;
+pub mod specgen;
